@@ -17,6 +17,7 @@ type c18Scenario struct {
 	Busy       bool       `json:"busy"`
 	End        string     `json:"end"` // none | cut | disconnect | stream-error | ka-write-fails | server-close
 	Block      bool       `json:"event_callback_blocks"`
+	TLS        bool       `json:"tls"`
 	FailAt     int        `json:"fail_keepalive_k,omitempty"`
 	EndAfterNs int64      `json:"end_after_ns,omitempty"`
 	Ticks      int        `json:"observe_ticks"`
@@ -43,6 +44,7 @@ func runC18(e *Engine, g G, o RunOpt) RunInfo {
 	sc.Client.KeepaliveNs = sc.IntervalNs
 	sc.Client.SM = g.Pct("sm", 30)
 	sc.Client.WebSocket = g.Pct("websocket", 20)
+	sc.TLS = !sc.Client.WebSocket && g.Pct("tls", 20)
 	sc.Busy = g.Bool("busy")
 	sc.End = []string{"none", "cut", "disconnect", "stream-error", "ka-write-fails", "server-close"}[g.Weighted("end", 2, 3, 3, 2, 4, 3)]
 	sc.Block = sc.End != "none" && g.Pct("callback-blocks", 30)
@@ -71,6 +73,12 @@ func runC18(e *Engine, g G, o RunOpt) RunInfo {
 		var ok bool
 		srvScript := DefaultNeg()
 		srvScript.SM = sc.Client.SM
+		if sc.TLS {
+			sc.Client.Insecure = false
+			sc.Client.TLS = TLSCfgRoots
+			srvScript.StartTLS = TLSRequired
+			srvScript.Cert = CertGood
+		}
 		if sc.Client.WebSocket {
 			s, ok = StartClientWS(e, sc.Client, sc.Client.SM, func(w *CW) { w.CatchAll() })
 			defer s.WS.Stop()
@@ -98,6 +106,11 @@ func runC18(e *Engine, g G, o RunOpt) RunInfo {
 			}))
 		}
 		cli.TrackWrites = true
+		if sc.TLS {
+			// inside TLS 1.3 a one-byte write is an application-data record of 5+1+1+16 bytes;
+			// every stanza is longer
+			cli.IsKeepalive = func(p []byte) bool { return len(p) == 23 && p[0] == 0x17 }
+		}
 		cli.OnClose = func() { closedAt = e.Now() }
 		if sc.FailAt > 0 {
 			cli.FailKeepaliveAt = sc.FailAt
@@ -193,6 +206,9 @@ func runC18(e *Engine, g G, o RunOpt) RunInfo {
 				kaFailedAt = wr.At
 			}
 		}
+	}
+	if sc.TLS {
+		e.Probe("c18.tls")
 	}
 	// 1. while the session is up, the i-th keepalive is written at t0 + i*interval exactly
 	upTo := tFault
